@@ -10,6 +10,7 @@ from rules import roles
 from engine.util import own_nodes, calls_with_nodes, where, optional_numeric_params, truthiness_uses
 
 RULES = {
+    "R-13.7": "a transfer is applied through one write transaction of the zone: on a versioned zone a refresh is admitted after an earlier overlapping one only if the writer admission protocol holds (C12 R-12.3 adopted)",
     "R-13.6": "a rejected transfer into a B-tree zone leaves it untouched only if the B-tree never writes a node shared with the published version (C19 R-19.1 adopted); a signed AXFR parses however the stream is cut into messages only if Message.find_rrset keys RRsets by covered type too (C03 R-03.4 index-key adopted)",
     "R-13.5": "an IXFR deletion removes exactly the addressed rdataset: the Version operations use every part of their (name, type, covers) key (C10 R-10.5 adopted)",
     "R-13.1": "no raise is reachable after the transfer's commit: inside Inbound.process_message, and in every driver after a process_message call that returned True",
@@ -222,7 +223,8 @@ def run(model, rep, tier):
     rep.ok("R-13.4", "dns.xfr", "-", f"{n_opt} optional numeric parameters are only ever tested with `is None` / `is not None`", stmt="presence-tests")
     rep.share(model, "C19", {"R-19.1"}, "R-13.6", "Inbound applies the transfer to a writable version that is a copy-on-write clone of the published B-tree")
     rep.share(model, "C03", {"R-03.4"}, "R-13.6", "every transfer message is parsed by the wire reader, which files RRSIGs of one owner by covered type", only=lambda o: o.stmt in ("index-key", "question-unique") or o.stmt.startswith("hook"))
-    rep.share(model, "C10", {"R-10.5"}, "R-13.5", "IXFR deletions address an rdataset by (name, rdtype, covers); a dropped component leaves stale RRSIGs in the zone")
+    rep.share(model, "C12", {"R-12.3"}, "R-13.7", "Inbound opens txn_manager.writer(); a stale admission event blocks every later transfer for ever")
+    rep.share(model, "C10", {"R-10.5", "R-10.9"}, "R-13.5", "IXFR deletions address an rdataset by (name, rdtype, covers); a dropped component leaves stale RRSIGs in the zone")
     rep.meta["explanation"] = (
         "Commit-last typestate on the CFG of Inbound.process_message and of every driver (with the boolean result propagated through the loop test), "
         "plus dominance rules for the guards that must precede any zone mutation. Convergence to the server's version for all streams is NOT decided.")
